@@ -25,7 +25,7 @@ type parentFn struct {
 }
 
 func (c *parentFn) Line() string {
-	return "par." + c.Fn + " " + encList(c.Has) + " " + encList(c.Names)
+	return "par." + c.Fn + " " + encNames(c.Has) + " " + encNames(c.Names)
 }
 func (c *parentFn) Key() string { return c.Line() }
 func (c *parentFn) NonTrivial() bool {
@@ -74,7 +74,7 @@ func (c *parentFn) RunCode() string {
 		default:
 			return "!bad-op"
 		}
-		return encList(traitNames(r))
+		return encNames(traitNames(r))
 	})
 }
 
@@ -91,7 +91,11 @@ func decList(s string) []string {
 	if s == "-" || s == "" {
 		return nil
 	}
-	return strings.Split(s, ",")
+	xs := strings.Split(s, ",")
+	for i := range xs {
+		xs[i] = unesc(xs[i])
+	}
+	return xs
 }
 
 func setOf(xs []string) map[string]bool {
@@ -110,7 +114,7 @@ func setStr(m map[string]bool) string {
 		}
 	}
 	sort.Strings(ks)
-	return encList(ks)
+	return encNames(ks)
 }
 
 // wantSet is the finite-set spec: has ∪ names / has \ names, as the sorted duplicate-free list.
@@ -165,14 +169,14 @@ func encName(s string) string {
 	if s == "" {
 		return "~"
 	}
-	return s
+	return esc(s)
 }
 
 func (c *parentSeq) Line() string {
 	var sb strings.Builder
 	sb.WriteString("par.seq")
 	for _, o := range c.Ops {
-		sb.WriteString(" " + o.Op + ":" + encName(o.Name) + ":" + encList(o.Traits))
+		sb.WriteString(" " + o.Op + ":" + encName(o.Name) + ":" + encNames(o.Traits))
 	}
 	return sb.String()
 }
@@ -196,7 +200,7 @@ func (c *parentSeq) Buckets() []string {
 func childrenState(m *parentpb.Model) string {
 	var parts []string
 	for _, ch := range m.ListChildren() {
-		parts = append(parts, encName(ch.Name)+"="+encList(traitNames(ch.Traits)))
+		parts = append(parts, encName(ch.Name)+"="+encNames(traitNames(ch.Traits)))
 	}
 	if len(parts) == 0 {
 		return "-"
@@ -314,8 +318,12 @@ func (c *parentSeq) Check(m *lib.Monitor, code string) {
 				return
 			}
 		}
+		specEnc := map[string]bool{}
+		for name := range spec {
+			specEnc[encName(name)] = true
+		}
 		for name := range got {
-			if _, ok := spec[name]; !ok && name != "~" {
+			if !specEnc[name] && name != "~" {
 				m.Violate("C20/parent/"+method+"/unexpected-child", "a child exists that was never added or was removed", c, "absent", name)
 				return
 			}
@@ -329,7 +337,11 @@ func randSubset(rng *rand.Rand, from []string, maxN int) []string {
 	n := rng.Intn(maxN + 1)
 	var out []string
 	for i := 0; i < n; i++ {
-		out = append(out, pick(rng, from))
+		x := pick(rng, from)
+		if rng.Intn(8) == 0 {
+			x = nearMiss(rng, x) // case variant, padded, prefix, extension, look-alike, empty
+		}
+		out = append(out, x)
 	}
 	return out
 }
@@ -353,7 +365,7 @@ func init() {
 			mon: res.Monitor("parent.set-algebra small domain", "for strictly sorted has: result == sorted list of (has ∪ names) resp. (has \\ names), computed with a Go map")}
 		fnx.tie.Exhaustive = true
 		fn := &section{name: "parent/fn",
-			tie: res.Tie("parent.traitUnion/traitRemove", "K1", "random: has of <=8 names from a 12-name alphabet (sorted-unique 80%, arbitrary order/duplicates 20%) x <=4 names; non-trivial = has and names both non-empty; distinct by request line"),
+			tie: res.Tie("parent.traitUnion/traitRemove", "K1", "random: has of <=8 names from a 12-name alphabet (12% near-miss variants: case, padding, prefix, extension, look-alike, empty) (sorted-unique 80%, arbitrary order/duplicates 20%) x <=4 names; non-trivial = has and names both non-empty; distinct by request line"),
 			mon: res.Monitor("parent.set-algebra", "for strictly sorted has: result == sorted list of (has ∪ names) resp. (has \\ names), computed with a Go map")}
 		small := []string{"a", "b", "c", "d", "e"}
 		for mask := 0; mask < 32; mask++ {
@@ -386,9 +398,19 @@ func init() {
 		}
 
 		seq := &section{name: "parent/seq",
-			tie: res.Tie("parent.Model op sequences", "K1", "random sequences of 1..10 ops (AddChild 15% [5% with duplicate traits, 3% unsorted, 2% empty name], AddChildTrait 40%, RemoveChildTrait 35%, RemoveChildByName 10%) over 3 child names and a 12-name trait alphabet; short sequences first; non-trivial = contains add or rm; distinct by request line"),
+			tie: res.Tie("parent.Model op sequences", "K1", "random sequences of 1..10 ops (AddChild 15% [5% with duplicate traits, 3% unsorted, 2% empty name], AddChildTrait 40%, RemoveChildTrait 35%, RemoveChildByName 10%) over 3 child names and a 12-name trait alphabet, 10% of child names and 12% of trait names replaced by a near-miss variant (case, leading/trailing space or no-break space, prefix, extension, unicode look-alike, empty); short sequences first; non-trivial = contains add or rm; distinct by request line"),
 			mon: res.Monitor("parent.children-vs-map-of-sets", "after every op each child's trait list equals the sorted set kept by a Go map-of-sets spec; no panic on well-formed requests")}
 		children := []string{"c1", "c2", "c3"}
+		child := func() string {
+			c := pick(rng, children)
+			if rng.Intn(10) == 0 {
+				c = nearMiss(rng, c)
+				if c == "" {
+					c = "C1"
+				}
+			}
+			return c
+		}
 		n := f.N(1500, 20000)
 		for i := 0; i < n; i++ {
 			k := 1 + i*10/n
@@ -398,7 +420,7 @@ func init() {
 				switch {
 				case r < 15:
 					ts := sortedUnique(randSubset(rng, traitAlphabet, 4))
-					name := pick(rng, children)
+					name := child()
 					switch q := rng.Intn(100); {
 					case q < 33 && len(ts) > 0:
 						ts = append(ts, ts[len(ts)-1])
@@ -409,11 +431,11 @@ func init() {
 					}
 					ops = append(ops, parentOp{"addchild", name, ts})
 				case r < 55:
-					ops = append(ops, parentOp{"add", pick(rng, children), randSubset(rng, traitAlphabet, 3)})
+					ops = append(ops, parentOp{"add", child(), randSubset(rng, traitAlphabet, 3)})
 				case r < 90:
-					ops = append(ops, parentOp{"rm", pick(rng, children), randSubset(rng, traitAlphabet, 3)})
+					ops = append(ops, parentOp{"rm", child(), randSubset(rng, traitAlphabet, 3)})
 				default:
-					ops = append(ops, parentOp{"rmchild", pick(rng, children), nil})
+					ops = append(ops, parentOp{"rmchild", child(), nil})
 				}
 			}
 			seq.add(&parentSeq{Model: "parent", Kind: "seq", Ops: ops})
